@@ -78,6 +78,15 @@ def finish(meta, src, name, store):
                 shutil.copy(os.path.join(src, f), os.path.join(dst, f))
         note = open(os.path.join(src, "note.txt")).read() if os.path.exists(os.path.join(src, "note.txt")) else ""
         meta["needs_to_manifest"] = note[:1500]
+        old = os.path.join(dst, "meta.json")
+        if os.path.exists(old):          # keep the hand-written history of earlier evaluations
+            try:
+                prev = json.load(open(old))
+                for k in ("round", "first_evaluation", "strengthening", "assessment"):
+                    if k in prev and k not in meta:
+                        meta[k] = prev[k]
+            except Exception:
+                pass
         meta["ran"] = "harness/seed_eval.py: demo on clean/patched scratch copies of the current /repo tree; ./check <prop> with VERIF_REPO=<patched copy>"
         json.dump(meta, open(os.path.join(dst, "meta.json"), "w"), indent=1)
         print("stored", dst)
